@@ -142,6 +142,34 @@ def obligations(r, tier, seed):
         obs.append(Ob("C16/difference-quotient-is-consistent/%s/%s" % (which, "-".join(types)), consistent, funcs=FUNCS, light=True,
                       scope="shape-bounded", bound="error family member %s on %s" % (which, "-".join(types))))
 
+    # ---- "over any number of vertices": the gradient / Hessian contributions of an n-ary edge with numerical Jacobians are
+    #      e^T Omega J_i and J_i^T Omega J_j for every pair i <= j, keyed by the vertices' gradient indices (the accumulation the
+    #      optimizer relies on; C03 proves it for opaque Jacobians, here it is stated for the numerically differentiated ones)
+    for which, types in [("midpoint", ("SE2", "R2", "SE2")), ("midpoint", ("R3", "SE3", "R3")), ("relative-pose", ("SE2", "SE2")), ("prior", ("SE3",))]:
+        def contributions(k, which=which, types=types):
+            np = k.np
+            e, vs, m = build(k, which, types)
+            gi = [5, 11, 23][:len(vs)]
+            for v, g_ in zip(vs, gi):
+                v.gradient_index = g_
+            e.information = k.spd_matrix("Om", m)
+            chi2, grads, hess = e.calc_chi2_gradient_hessian()
+            err = e.calc_error()
+            Js = e.calc_jacobians()
+            Om = e.information
+            k.eq(chi2, np.dot(np.dot(err, Om), err), "chi2 == e^T Omega e", rtol=1e-7)
+            k.check([g[0] for g in grads] == gi, "gradient blocks keyed by gradient_index, in vertex order", [g[0] for g in grads])
+            for i in range(len(vs)):
+                k.eq(grads[i][1], np.dot(np.dot(err, Om), Js[i]), "gradient block of vertex %d == e^T Omega J_%d" % (i, i), rtol=1e-7)
+            want = [(gi[i], gi[j]) for i in range(len(vs)) for j in range(i, len(vs))]
+            k.check([h[0] for h in hess] == want, "Hessian blocks for every pair i <= j", [h[0] for h in hess])
+            it = iter(hess)
+            for i in range(len(vs)):
+                for j in range(i, len(vs)):
+                    k.eq(next(it)[1], np.dot(np.dot(np.transpose(Js[i]), Om), Js[j]), "Hessian block (%d,%d) == J_%d^T Omega J_%d" % (i, j, i, j), rtol=1e-7)
+        obs.append(Ob("C16/n-ary-contributions/%s/%s" % (which, "-".join(types)), contributions, funcs=[BASE + ".calc_chi2_gradient_hessian"] + FUNCS, light=True,
+                      scope="shape-bounded", bound="error family member %s on %s" % (which, "-".join(types))))
+
     # ---- internal: the exact forward-difference formula with a symbolic real step
     for which, types in [("prior", ("SE2",)), ("squared-range", ("R2", "SE2")), ("relative-pose", ("R3", "R3")), ("midpoint", ("R2", "R2", "R2")), ("prior", ("SE3",))]:
         def formula(k, which=which, types=types):
